@@ -329,11 +329,15 @@ def observe_psf(G, call_seed):
         ds = sim.via_image_from(image=G.make_image([0, 0], 1, 2, [2, 2, 0, 0]))
         if psf is not None:
             rec["ina"] = [ids(_raw(psf)), ids(_native(psf))]
-        sp, dp = _native(sim.psf), _native(ds.psf)
-        rec["skh"], rec["skw"] = int(sp.shape[0]), int(sp.shape[1])
-        rec["pkh"], rec["pkw"] = int(dp.shape[0]), int(dp.shape[1])
-        rec["simpsf"], rec["dspsf"] = ai(sp, G.upsf), ai(dp, G.upsf)
-        rec["dspsfn"] = ai(dp, 1.0 / G.Q)
+        if getattr(sim, "psf", None) is not None:
+            sp = _native(sim.psf)
+            rec["skh"], rec["skw"] = int(sp.shape[0]), int(sp.shape[1])
+            rec["simpsf"] = ai(sp, G.upsf)
+        if ds.psf is not None:
+            dp = _native(ds.psf)
+            rec["pkh"], rec["pkw"] = int(dp.shape[0]), int(dp.shape[1])
+            rec["dspsf"] = ai(dp, G.upsf)
+            rec["dspsfn"] = ai(dp, 1.0 / G.Q)
     except core.MachineryError:
         raise
     except Exception as ex:
@@ -366,7 +370,7 @@ def records_img(src):
             steps.append({"ii": images.setdefault(key, len(images)), "seed": int(call["seed"]), "_rec": rec, "_cold": cold})
     if steps:
         recs.append(_hist_record(src, "img", steps, G))
-    if src.get("with_psf", True):
+    if src.get("with_psf", src["sid"] % 3 == 0):
         p = observe_psf(G, calls[0]["seed"])
         p["_src"] = src
         recs.append(p)
@@ -698,8 +702,8 @@ def _bounds(quick, seed):
         "frames": [(1, 1), (1, 3), (2, 3), (3, 2)] if quick else [(1, 1), (1, 2), (1, 3), (2, 1), (2, 3), (3, 2), (3, 3), (2, 4)],
         "image_variants": ["pos", "signed"],
         "geoms": [(2, 2, 0, 0), (2, 6, 4, -2), (4, 2, -3, 5), (6, 4, 1, 1)],
-        "thin": 6 if quick else 1,
-        "thin_offset": seed % 6 if quick else 0,
+        "thin": 3 if quick else 1,
+        "thin_offset": seed % 3 if quick else 0,
         "hist_kernels": [(1, 3, "pos"), (3, 1, "signed"), (3, 3, "pos")] if quick else [(1, 3, "pos"), (3, 1, "signed"), (3, 3, "signed"), (3, 5, "pos"), (0, 0, "none")],
         "hist_flags": [(True, True, True, True), (False, False, False, False), (True, True, False, False), (False, False, True, True),
                        (True, False, True, False), (False, True, True, True)] if quick else flags,
@@ -712,8 +716,8 @@ def _bounds(quick, seed):
         "vis_baselines": [((2, 0),), ((0, 2), (2, -2)), ((1, 1), (0, 0), (-2, 4))] if quick
         else [((2, 0),), ((0, 2), (2, -2)), ((1, 1), (0, 0), (-2, 4)), ((1, 0), (0, 1)), ((4, 2), (-1, 3), (2, 2))],
         "vis_mask_mode": "two" if quick else "few",
-        "vis_hist_len": 1,
-        "random_imaging": 300 if quick else 4000,
+        "vis_hist_len": 2 if quick else 3,
+        "random_imaging": 400 if quick else 4000,
         "random_imaging_histories": 40 if quick else 600,
         "random_interferometer": 150 if quick else 2000,
         "random_interferometer_histories": 30 if quick else 400,
@@ -743,7 +747,7 @@ def enumerate_machine(ctx, b):
     fams = {}
     for r in insts:
         fams[r["fam"]] = fams.get(r["fam"], 0) + 1
-    if not insts or len(keys) != len(insts) or not {"single", "hist", "vsingle"} <= set(fams):
+    if not insts or len(keys) != len(insts) or not {"single", "hist", "vsingle", "vhist"} <= set(fams):
         raise core.MachineryError(f"Simulate.tla dumped {len(insts)} behaviours ({len(keys)} distinct), families {fams}")
     need = {"Call", "Pad", "Convolve", "Trim", "AddSky", "Poisson", "NoiseMap", "SubtractSky", "Return", "VisCall", "Transform",
             "GaussianNoise", "VisNoiseMap", "ReturnVis"}
